@@ -53,11 +53,20 @@ theorem addAll_spec (l : List (Path × String)) : ∀ tab : List (Path × String
 structure Ext (t t' : Tabs) : Prop where
   cells : ∃ l, t'.ctab = t.ctab ++ l ∧ ∀ e ∈ l, e ∉ t.ctab
   refs : ∃ l, t'.rtab = t.rtab ++ l ∧ ∀ e ∈ l, e ∉ t.rtab
+  slots : t'.slots = t.slots
+  gv : t'.gv = t.gv
 
 theorem ext_grow (t : Tabs) (st : SM.St) : Ext t (t.grow st) := by
   obtain ⟨l1, h1, h2, _⟩ := addAll_spec (cellMembers st) t.ctab
   obtain ⟨l2, h3, h4, _⟩ := addAll_spec (refMembers st) t.rtab
-  exact ⟨⟨l1, h1, h2⟩, ⟨l2, h3, h4⟩⟩
+  obtain ⟨l3, h5, h6, _⟩ := addAll_spec (globalSlots st) (addAll t.rtab (refMembers st))
+  refine ⟨⟨l1, h1, h2⟩, ⟨l2 ++ l3, ?_, ?_⟩, rfl, rfl⟩
+  · show addAll (addAll t.rtab (refMembers st)) (globalSlots st) = _
+    rw [h5, h3, List.append_assoc]
+  · intro e he
+    rcases List.mem_append.mp he with he | he
+    · exact h4 e he
+    · exact fun hc => h6 e he (by rw [h3]; exact List.mem_append_left _ hc)
 
 theorem conts_eq_cont (st : SM.St) (a : Attr) (q : Path) : conts st a q = st.cont a q := rfl
 
@@ -112,20 +121,86 @@ theorem mem_refMembers (st : SM.St) (q : Path) (n : String) (h : (st.mem .refs q
 structure AllocOK (t : Tabs) (st : SM.St) : Prop where
   cells : ∀ q n, (st.mem .cells q n).isSome = true → (q, n) ∈ t.ctab
   refs : ∀ q x, (st.mem .refs q x).isSome = true → (q, x) ∈ t.rtab
+  /-- the slots through which a model-level reference is seen -/
+  gslots : ∀ q x, q ∈ st.ids → x ∈ st.globals → (q, x) ∈ t.rtab
+  /-- the declared attribute slots -/
+  slots : ∀ e ∈ t.slots, e ∈ t.rtab
 
-theorem allocOK_grow (t : Tabs) (st : SM.St) : AllocOK (t.grow st) st := by
+theorem allocOK_grow (t : Tabs) (st : SM.St) (hs : ∀ e ∈ t.slots, e ∈ t.rtab) : AllocOK (t.grow st) st := by
   obtain ⟨_, _, _, h3⟩ := addAll_spec (cellMembers st) t.ctab
-  obtain ⟨_, _, _, h6⟩ := addAll_spec (refMembers st) t.rtab
-  exact ⟨fun q n h => h3 _ (mem_cellMembers st q n h), fun q x h => h6 _ (mem_refMembers st q x h)⟩
+  obtain ⟨l2, h4, _, h6⟩ := addAll_spec (refMembers st) t.rtab
+  obtain ⟨l3, h7, _, h9⟩ := addAll_spec (globalSlots st) (addAll t.rtab (refMembers st))
+  have hsub : ∀ e, e ∈ addAll t.rtab (refMembers st) → e ∈ (t.grow st).rtab := by
+    intro e he
+    show e ∈ addAll (addAll t.rtab (refMembers st)) (globalSlots st)
+    rw [h7]; exact List.mem_append_left _ he
+  refine ⟨fun q n h => h3 _ (mem_cellMembers st q n h), fun q x h => hsub _ (h6 _ (mem_refMembers st q x h)), ?_, ?_⟩
+  · intro q x hq hx
+    apply h9
+    simp only [globalSlots, List.mem_flatMap, List.mem_map]
+    exact ⟨q, hq, x, hx, rfl⟩
+  · intro e he
+    apply hsub
+    rw [h4]; exact List.mem_append_left _ (hs e he)
 
 theorem allocOK_empty : AllocOK {} ({} : SM.St) := by
-  constructor
+  refine ⟨?_, ?_, ?_, ?_⟩
   · intro q n h
     rw [St.mem_of_not_mem _ _ q n (by simp [St.ids])] at h
     cases h
   · intro q n h
     rw [St.mem_of_not_mem _ _ q n (by simp [St.ids])] at h
     cases h
+  · intro q x hq _
+    simp [St.ids] at hq
+  · intro e he
+    cases he
+
+theorem allocOK_init (slots : List (Path × String)) : AllocOK (W.init slots).tabs ({} : SM.St) := by
+  refine ⟨?_, ?_, ?_, ?_⟩
+  · intro q n h
+    rw [St.mem_of_not_mem _ _ q n (by simp [St.ids])] at h
+    cases h
+  · intro q n h
+    rw [St.mem_of_not_mem _ _ q n (by simp [St.ids])] at h
+    cases h
+  · intro q x hq _
+    simp [St.ids] at hq
+  · intro e he
+    exact he
+
+theorem ids_of_has (st : SM.St) (q : Path) (h : st.has q = true) : q ∈ st.ids := by
+  apply Classical.byContradiction
+  intro hq
+  unfold St.has at h
+  rw [(find_none_iff st q).mpr hq] at h
+  cases h
+
+/-- a slot that denotes a reference has an identity -/
+theorem AllocOK.pay {t : Tabs} {st : SM.St} (ha : AllocOK t st) (q : Path) (x : String)
+    (h : (refPay t st q x).isSome = true) : (q, x) ∈ t.rtab := by
+  unfold refPay at h
+  cases hm : st.mem .refs q x with
+  | some m => exact ha.refs q x (by rw [hm]; rfl)
+  | none =>
+    rw [hm] at h
+    simp only at h
+    split at h
+    · rename_i hc
+      simp only [Bool.and_eq_true] at hc
+      unfold gpay at h
+      split at h
+      · rename_i hg
+        apply ha.gslots q x
+        · apply Classical.byContradiction
+          intro hq
+          have h1 := hc.1
+          unfold St.has at h1
+          rw [(find_none_iff st q).mpr hq] at h1
+          cases h1
+        · simpa using hg
+      · cases h
+    · cases h
 
 /-! ### decoding -/
 
@@ -170,19 +245,45 @@ theorem getElem?_ext {l l' : List (Path × String)} (c : Nat) :
 
 /-! ## the definitions do not depend on identities of non-members -/
 
-theorem nsAt_ext {t t' : Tabs} (h : Ext t t') {st : SM.St} (ha : AllocOK t st) (q : Path) :
-    nsAt t' st q = nsAt t st q := by
+theorem nsPlain_ext {t t' : Tabs} (h : Ext t t') {st : SM.St} (ha : AllocOK t st) (q : Path) (hq : q ∈ st.ids) :
+    nsPlain t' st q = nsPlain t st q := by
   funext x
-  unfold nsAt
+  unfold nsPlain
   by_cases hc : (st.mem .cells q x).isSome = true
   · simp only [hc, if_true, h.cid q x (ha.cells q x hc)]
   · simp only [hc, Bool.false_eq_true, if_false]
-    by_cases hch : (st.childNames q).contains x = true
-    · simp only [hch, if_true]
-    · simp only [hch, Bool.false_eq_true, if_false]
-      by_cases hr : (st.mem .refs q x).isSome = true
-      · simp only [hr, if_true, h.rid q x (ha.refs q x hr)]
-      · simp only [hr, Bool.false_eq_true, if_false]
+    by_cases hg : st.globals.contains x = true
+    · simp only [hg, if_true]
+      rw [h.rid q x (ha.gslots q x hq (by simpa using hg))]
+    · simp only [hg, Bool.false_eq_true, if_false]
+      by_cases hch : (st.childNames q).contains x = true
+      · simp only [hch, if_true]
+      · simp only [hch, Bool.false_eq_true, if_false]
+        by_cases hr : (st.mem .refs q x).isSome = true
+        · simp only [hr, if_true, h.rid q x (ha.refs q x hr)]
+        · simp only [hr, Bool.false_eq_true, if_false]
+
+theorem qualOf_ext {t t' : Tabs} (h : Ext t t') (q : Path) (x : String) : qualOf t' q x = qualOf t q x := by
+  unfold qualOf; rw [h.slots]
+
+theorem slotBinding_ext {t t' : Tabs} (h : Ext t t') {st : SM.St} (ha : AllocOK t st) (e : Path × String)
+    (he : e ∈ t.slots) : slotBinding t' e = slotBinding t e := by
+  unfold slotBinding
+  rw [h.rid e.1 e.2 (ha.slots e he)]
+
+theorem nsAt_ext {t t' : Tabs} (h : Ext t t') {st : SM.St} (ha : AllocOK t st) (q : Path) (hq : q ∈ st.ids) :
+    nsAt t' st q = nsAt t st q := by
+  funext x
+  unfold nsAt
+  rw [qualOf_ext h]
+  cases hx : qualOf t q x with
+  | some e => exact slotBinding_ext h ha e (List.mem_of_find?_eq_some hx)
+  | none => simp only [nsPlain_ext h ha q hq]
+
+theorem refPay_ext {t t' : Tabs} (h : Ext t t') (st : SM.St) (q : Path) (x : String) :
+    refPay t' st q x = refPay t st q x := by
+  unfold refPay gpay
+  rw [h.gv]
 
 theorem cellInfo_ext {t t' : Tabs} (h : Ext t t') {st : SM.St} (ha : AllocOK t st) (c : CellId) :
     cellInfo t' st c = cellInfo t st c := by
@@ -230,7 +331,23 @@ theorem refsOf_ext {t t' : Tabs} (h : Ext t t') {st : SM.St} (ha : AllocOK t st)
 theorem envOf_ext_formula (P : Params) {t t' : Tabs} (h : Ext t t') {st : SM.St} (ha : AllocOK t st) :
     (envOf P t' st).formula = (envOf P t st).formula := by
   funext n
-  simp only [envOf, cellInfo_ext h ha, nsAt_ext h ha]
+  simp only [envOf, cellInfo_ext h ha]
+  cases hi : cellInfo t st n.1 with
+  | none => rfl
+  | some i =>
+    obtain ⟨q, x, m⟩ := i
+    simp only
+    have hq : q ∈ st.ids := by
+      unfold cellInfo at hi
+      split at hi
+      · rename_i q' x' _
+        split at hi
+        · simp only [Option.map_eq_some_iff, Prod.mk.injEq] at hi
+          obtain ⟨m', hm', rfl, rfl, rfl⟩ := hi
+          exact mem_ids_of_isSome st .cells _ _ (by rw [hm']; rfl)
+        · cases hi
+      · cases hi
+    rw [nsAt_ext h ha q hq]
 
 theorem envOf_ext_cached (P : Params) {t t' : Tabs} (h : Ext t t') {st : SM.St} (ha : AllocOK t st) :
     (envOf P t' st).cached = (envOf P t st).cached := by
@@ -262,18 +379,18 @@ theorem envOf_ext_refs (P : Params) {t t' : Tabs} (h : Ext t t') {st : SM.St} (h
       simp only
       have hmem : (q, x) ∈ t.rtab := List.mem_of_getElem? hr
       have : t'.rid q x = t.rid q x := h.rid q x hmem
-      rw [this]
+      rw [this, refPay_ext h]
   · rw [hn]
     cases hc : (t.rtab ++ l)[r]? with
     | none => rfl
     | some e =>
       obtain ⟨q, x⟩ := e
       have hnot : (q, x) ∉ t.rtab := h2 _ (he _ hc)
-      have : st.mem .refs q x = none := by
-        cases hm : st.mem .refs q x with
+      have : refPay t st q x = none := by
+        cases hm : refPay t st q x with
         | none => rfl
-        | some m => exact absurd (ha.refs q x (by rw [hm]; rfl)) hnot
-      simp [this]
+        | some m => exact absurd (ha.pay q x (by rw [hm]; rfl)) hnot
+      simp [refPay_ext h, this]
 
 theorem envOf_ext_observers (P : Params) {t t' : Tabs} (h : Ext t t') {st : SM.St} (ha : AllocOK t st)
     (r : RefId) (c : CellId) (hc : c ∈ (envOf P t st).observers r) : c ∈ (envOf P t' st).observers r := by
